@@ -94,6 +94,13 @@ func rdeadline(c any) int { return 0 }
 func deadlineArmed(c any) bool { return false }
 func succeeded(f string) bool { return false }
 func called(f string) bool { return false }
+func dbSame() bool { return false }
+func dbRecSame(b string) bool { return false }
+func dbFieldSame(b, k string) bool { return false }
+func dbHas(b string) bool { return false }
+func dbKey(b, k string) bool { return false }
+func dbLen(b, k string) int { return 0 }
+func dbByte(b, k string, i int) byte { return 0 }
 func fresh(x any) bool { return true }
 func allocated(x any) bool { return true }
 func typeIs[T any](x any) bool { return true }
@@ -519,7 +526,18 @@ func (w *World) buildPkg(p *Pkg) error {
 		for _, c := range fc.Ensures {
 			emit(c, all)
 		}
-		allLoc := append(append([]localVar{}, all...), locals...)
+		allLoc := append([]localVar{}, all...)
+		for _, lv := range locals {
+			dup := false
+			for _, x := range allLoc {
+				if x.Name == lv.Name {
+					dup = true
+				}
+			}
+			if !dup {
+				allLoc = append(allLoc, lv)
+			}
+		}
 		for _, rn := range []string{"rangeindex", "rangeindex_2", "rangeindex_3"} {
 			if !skip[rn] {
 				clash := false
